@@ -51,8 +51,13 @@ Types == <<
   [name |-> "@C",   n |-> Obj(<<P(Kc, Lit(NumD(N3), <<OptR>>))>>, <<R("allOf", ListV(<<TRef("@A1"), TRef("@A2")>>))>>)],
   [name |-> "@AA",  n |-> Obj(<<P(Kd, Lit(NumD(N1), <<>>))>>, <<R("allOf", TRef("@A1"))>>)],
   [name |-> "@AAA", n |-> Obj(<<>>, <<R("allOf", TRef("@AA"))>>)],
-  [name |-> "@W",   n |-> Ref(<<"@U", "@O">>, <<>>)]
+  [name |-> "@W",   n |-> Ref(<<"@U", "@O">>, <<>>)],
+  \* key types that are shortcuts to string types, and a key type given by a format
+  [name |-> "@KA",  n |-> Ref(<<"@K">>, <<>>)],
+  [name |-> "@KU",  n |-> Ref(<<"@K", "@K2">>, <<>>)],
+  [name |-> "@KE",  n |-> Lit(StrD(SEmail), <<R("type", IdV("email"))>>)]
 >>
+KeyTypes == {"@K", "@K2", "@KA", "@KU", "@KE"}
 Env == [types |-> Types, enums |-> <<>>]
 TNames == {Types[i].name : i \in DOMAIN Types}
 
@@ -63,7 +68,7 @@ OrSets == { <<TRef("@I"), TRef("@S")>>, <<IdV("integer"), IdV("string")>>, <<TRe
             <<IdV("boolean"), TRef("@U")>>,
             <<SetV(<<R("enum", ListV(<<[t |-> "val", v |-> NumD(N1)], [t |-> "val", v |-> NumD(N2)]>>))>>), SetV(<<R("type", IdV("string"))>>)>> }    \* an enum inside a rule set
 RefPositions ==
-     {Ref(<<t>>, n) : t \in TNames \ {"@K", "@K2"}, n \in {<<>>, <<NullR>>}}
+     {Ref(<<t>>, n) : t \in TNames \ KeyTypes, n \in {<<>>, <<NullR>>}}
 \cup {Ref(<<"@I", "@S">>, <<>>), Ref(<<"@I", "@O">>, <<NullR>>), Ref(<<"@O", "@Q">>, <<>>), Ref(<<"@U", "@F">>, <<>>), Ref(<<"@L", "@Rec">>, <<>>)}
 \cup {Lit(NumD(N1), <<R("type", TRef("@I"))>>), Lit(StrD(Sa), <<R("type", TRef("@S")), NullR>>), Lit(NumD(N1), <<R("type", TRef("@U"))>>)}
 \cup {Lit(NumD(N1), <<R("or", ListV(ms))>> \o n) : ms \in OrSets, n \in {<<>>, <<NullR>>}}
@@ -83,7 +88,9 @@ ShortcutRoots == { Obj(<<SC("@K", Lit(NumD(N1), <<>>))>>, <<>>),
                    Obj(<<SC("@K", Lit(NumD(N1), <<OptR>>))>>, <<>>),
                    Obj(<<SC("@K", Lit(NumD(N1), <<>>)), SC("@K2", Lit(StrD(Ss), <<>>))>>, <<>>),
                    Obj(<<SC("@K", Lit(NumD(N1), <<>>))>>, <<R("additionalProperties", IdV("string"))>>),
-                   Obj(<<SC("@K2", Ref(<<"@I", "@S">>, <<>>))>>, <<>>) }
+                   Obj(<<SC("@K2", Ref(<<"@I", "@S">>, <<>>))>>, <<>>),
+                   Obj(<<SC("@KA", Lit(NumD(N1), <<>>))>>, <<>>), Obj(<<SC("@KU", Lit(NumD(N1), <<OptR>>)), P(Kx, Lit(NumD(N2), <<OptR>>))>>, <<>>),
+                   Obj(<<SC("@KE", Lit(NumD(N1), <<>>))>>, <<>>) }
 AllOfRoots == { Obj(<<P(Kx, Lit(NumD(N1), <<OptR>>))>>, <<R("allOf", TRef("@C"))>>),
                 Obj(<<>>, <<R("allOf", ListV(<<TRef("@A2"), TRef("@AA")>>))>>),
                 Obj(<<P(Kp, Ref(<<"@AAA">>, <<>>))>>, <<R("allOf", TRef("@A2")), R("additionalProperties", IdV("integer"))>>) }
@@ -109,6 +116,8 @@ Special == { RecDoc2, ObjD(<<KVp(Kx, NumD(N1)), KVp(Kr, RecDoc2)>>), ObjD(<<KVp(
              ObjD(<<KVp(Ka, NumD(N1)), KVp(Kzz, StrD(Sa_b))>>), ObjD(<<KVp(Ka, NumD(N1)), KVp(Kzz, NumD(N1_5))>>), ObjD(<<KVp(Ka, NumD(N1)), KVp(Kzz, BoolD(TRUE))>>),
              ObjD(<<KVp(Kabc, NumD(N1)), KVp(Kabd, NumD(N1)), KVp(Kab, StrD(Ss))>>), ObjD(<<KVp(Kabc, NumD(N1)), KVp(Kzz, StrD(Ss))>>),
              ArrD(<<NumD(N1), NumD(N1), NumD(N1)>>), ArrD(<<Null, Null>>), ArrD(<<NumD(N1), StrD(Sa), StrD(Sa)>>),
+             \* an e-mail address as a key
+             ObjD(<<KVp(SEmail, NumD(N1))>>), ObjD(<<KVp(SEmail, NumD(N1)), KVp(Kabc, NumD(N2))>>),
              \* a key both shortcut entries of {@K: 1, @K2: "s"} admit, next to one that only the second admits (either order of the document)
              ObjD(<<KVp(Kab, NumD(N1)), KVp(<<120, 121>>, StrD(Ss))>>), ObjD(<<KVp(Kabd, NumD(N1)), KVp(<<120, 121>>, StrD(Ss)), KVp(Kab, NumD(N2))>>),
              \* two properties the example does not name: each is judged on its own (the second after a container, a string, a number)
